@@ -7,9 +7,6 @@ import FlacVerif.Model.EncodeStream
 import FlacVerif.Model.RfcRec
 namespace FlacVerif
 
-/-- `FrameFits` for every block of the stream. -/
-def StreamFits (log : List OEvent) (blocks : List (List (List Int))) : Prop := ∀ b ∈ blocks, FrameFits log b
-
 namespace Strict
 open Rfc
 
@@ -80,7 +77,7 @@ theorem readFrames_encodeFrames (cfg : SubCfg) (st : StereoCfg) (bps rate nch bs
     (hnch : 1 ≤ nch ∧ nch ≤ 8) (hbs : bs < 2 ^ 16) (hb : 1 ≤ bps ∧ bps ≤ 24) (hmax : cfg.maxP ≤ 14) :
     ∀ (blocks : List (List (List Int))) (number : Nat) (log log' : List OEvent) (frames : List Frame),
       (∀ b ∈ blocks, BlockOk nch bps bs b) → number + blocks.length ≤ 2 ^ 31 →
-      (∀ e ∈ log, e.Ok) → StreamFits log blocks →
+      (∀ e ∈ log, e.Ok) →
       encodeFrames cfg st bps rate blocks number log = some (frames, log') →
       ∃ (fbs : List Bits) (reps : List FrameRep),
         frames.mapM (Frame.bits rfcCrc8 rfcCrc16) = some fbs ∧
@@ -96,7 +93,7 @@ theorem readFrames_encodeFrames (cfg : SubCfg) (st : StereoCfg) (bps rate nch bs
   intro blocks
   induction blocks with
   | nil =>
-    intro number log log' frames _ _ _ _ h
+    intro number log log' frames _ _ _ h
     simp only [encodeFrames, Option.some.injEq, Prod.mk.injEq] at h
     obtain ⟨rfl, _⟩ := h
     refine ⟨[], [], rfl, rfl, rfl, fun fb hfb => by simp at hfb, ?_, rfl, rfl, rfl⟩
@@ -105,21 +102,18 @@ theorem readFrames_encodeFrames (cfg : SubCfg) (st : StereoCfg) (bps rate nch bs
     rw [hp]
     cases fuel <;> rfl
   | cons b bs' ih =>
-    intro number log log' frames hok hnum hlog hfit h
+    intro number log log' frames hok hnum hlog h
     simp only [encodeFrames, Option.bind_eq_bind, Option.bind_eq_some_iff, Option.some.injEq, Prod.mk.injEq] at h
     obtain ⟨⟨f, l1⟩, hf, ⟨fs, l2⟩, hfs, rfl, _⟩ := h
     have hbk := hok b (by simp)
     have hsub := encodeFrame_sub cfg st b bps rate number log l1 f hf
     have hfr := fun more => frame_strict cfg st b bps rate number (b.headD []).length log l1 f
       (by rw [hbk.nch]; exact hnch) hbk.len ⟨hbk.pos, Nat.lt_of_le_of_lt hbk.le hbs⟩ hb hbk.range
-      (by simp only [List.length_cons] at hnum; omega) hmax hlog (hfit b (by simp)) hf info
+      (by simp only [List.length_cons] at hnum; omega) hmax hlog hf info
       ⟨hinfo.1, by rw [hbk.nch]; exact hinfo.2.1, hinfo.2.2⟩ more
     obtain ⟨fbs, reps, hm1, hm2, hl, h8, hrd, hc1, hc2, hc3⟩ := ih (number + 1) l1 l2 fs
       (fun x hx => hok x (by simp [hx])) (by simp only [List.length_cons] at hnum; omega)
-      (fun e he => hlog e (hsub e he))
-      (fun x hx => ⟨fun c hc => LpcFits_mono log l1 c hsub ((hfit x (by simp [hx])).1 c hc),
-        fun l r hlr => ⟨LpcFits_mono log l1 _ hsub ((hfit x (by simp [hx])).2 l r hlr).1,
-          LpcFits_mono log l1 _ hsub ((hfit x (by simp [hx])).2 l r hlr).2⟩⟩) hfs
+      (fun e he => hlog e (hsub e he)) hfs
     obtain ⟨fb, rep0, hfb, _, _, _, _, hlen0, hcount⟩ := hfr []
     have hfb8 : fb.length % 8 = 0 := by omega
     have hfb16 := frame_bits_ge16 f fb hfb
